@@ -30,7 +30,13 @@ def dataclass_to_dict(obj: Any) -> Any:
 
 def format_colang_parsing_error_message(exception, colang_content):
     """Improves readability of Colang error messages."""
-    line = colang_content.splitlines()[exception.line - 1]
+    lines = colang_content.splitlines()
+    line_number = getattr(exception, "line", None)
+    if not isinstance(line_number, int) or not 1 <= line_number <= len(lines):
+        # Not every parsing exception carries a (valid) line number.
+        return str(exception)
+    line = lines[line_number - 1]
     # NOTE: for Colang 1.0 parsing exceptions, there is no "column" attribute.
-    marker = " " * (getattr(exception, "column", 1) - 1) + "^"
+    column = getattr(exception, "column", 1)
+    marker = " " * ((column if isinstance(column, int) else 1) - 1) + "^"
     return f"{exception}:\n{line}\n{marker}"
